@@ -296,7 +296,21 @@ def canonical_type_name(fa, e):
     parts = d.split(".")
     imports = getattr(fa.fi.module, "imports", {}) or {}
     origin = imports.get(parts[0])
-    if origin and not fa.df.is_local(parts[0]):
+    if fa.df.is_local(parts[0]):
+        # a name imported inside the function
+        origin = None
+        for st in A.walk_body(fa.node):
+            if isinstance(st, ast.ImportFrom) and st.module:
+                for al in st.names:
+                    if (al.asname or al.name) == parts[0]:
+                        origin = ("." * (st.level or 0)) + st.module + ":" + al.name
+            elif isinstance(st, ast.Import):
+                for al in st.names:
+                    if (al.asname or al.name.split(".")[0]) == parts[0]:
+                        origin = al.name if al.asname else al.name.split(".")[0]
+        if origin is not None and sum(1 for n in A.walk_body(fa.node) if isinstance(n, ast.Name) and n.id == parts[0] and isinstance(n.ctx, ast.Store)):
+            origin = None  # also assigned: not just an import
+    if origin:
         if ":" in origin:
             m_, n_ = origin.split(":", 1)
             if m_.startswith(".") or m_.split(".")[0] == "twosigma":
